@@ -24,8 +24,13 @@ import time
 import traceback
 
 VERIF = os.path.dirname(os.path.dirname(os.path.abspath(__file__)))
-EVIDENCE_DIR = os.path.join(VERIF, 'evidence')
-REPLAY_DIR = os.path.join(VERIF, 'replays')
+# (the sensitivity self-test runs the checks against scratch copies of /repo
+# with seeded changes applied; its evidence and replays must not overwrite the
+# real ones)
+EVIDENCE_DIR = os.environ.get('VERIF_EVIDENCE_DIR') or \
+                                            os.path.join(VERIF, 'evidence')
+REPLAY_DIR = os.environ.get('VERIF_REPLAY_DIR') or \
+                                            os.path.join(VERIF, 'replays')
 KNOWN_FILE = os.path.join(VERIF, 'known_findings.jsonl')
 
 EXIT_OK, EXIT_VIOLATION, EXIT_HARNESS = 0, 1, 2
